@@ -8,6 +8,7 @@ pub mod par;
 pub mod shortest;
 pub mod simple;
 pub mod gen;
+pub mod gram;
 
 /// Run all oracle self-checks; Err => machinery failure (exit 2 by the caller).
 pub fn self_check_all() -> Result<(), String> {
@@ -16,5 +17,6 @@ pub fn self_check_all() -> Result<(), String> {
     intref::self_check().map_err(|e| format!("R-int: {e}"))?;
     shortest::self_check().map_err(|e| format!("R-shortest: {e}"))?;
     simple::self_check().map_err(|e| format!("R-simple: {e}"))?;
+    gram::self_check().map_err(|e| format!("R-gram: {e}"))?;
     Ok(())
 }
